@@ -684,26 +684,21 @@ def stress(ctx, corr, plan=None):
             if not any(p[0] == t for p in plan):
                 plan.append((t, rng.choice(stor), rng.choice([2, 16])))
     corr.extra['stress_plan'] = [f'{TY[t][1]}/{s}/{n}thr' for t, s, n in plan]
-    fold_q, fold_idx = [], []
     runs = []
     for (tag, storage, nt) in plan:
         text, phases = stress_program(tag, storage, nt, iters, rng)
         name = f'stress_{tag}_{storage}_{nt}'
-        kind, rc, o, e = build_run(ctx, text, name, 120 if not ctx.thorough else 300)
+        kind, rc, o, e = build_run(ctx, text, name, 60 if not ctx.thorough else 240)
         runs.append((tag, storage, nt, phases, kind, rc, o, e, text))
-        for pname, pred in phases:
-            if pred[0] == 'fold':
-                _, cty, b, k, sg, cls = TY[tag]
-                fold_idx.append((len(runs) - 1, pname))
-                fold_q.append(f'{b} {sg} {pred[1]} ' + ' '.join(f'{c} {op} {v}' for c, op, v in pred[2]))
-    answers = ctx.driver('fold', ''.join(q + '\n' for q in fold_q)).split() if fold_q else []
-    predicted = {k: a for k, a in zip(fold_idx, answers)}
-    for ri, (tag, storage, nt, phases, kind, rc, o, e, text) in enumerate(runs):
         _, cty, b, k, sg, cls = TY[tag]
+        fold_q = [(pname, f'{b} {sg} {pred[1]} ' + ' '.join(f'{c} {op} {v}' for c, op, v in pred[2]))
+                  for pname, pred in phases if pred[0] == 'fold']
+        answers = ctx.driver('fold', ''.join(q + '\n' for _, q in fold_q)).split() if fold_q else []
+        predicted = {pn: a for (pn, _), a in zip(fold_q, answers)}
         desc = f'_Atomic {cty}, {storage} object, {nt} threads x {iters} iterations'
         if kind != 'run':
             corr.violations.append({'what': f'stress program does not {kind}', 'input': desc, 'expected': 'builds', 'got': e[-500:], 'program': text})
-            continue
+            return
         got = {}
         for line in o.splitlines():
             w = line.split()
@@ -717,14 +712,13 @@ def stress(ctx, corr, plan=None):
                 why = 'did not terminate within the time limit (killed)' if rc in (137, -9) else f'ended with rc={rc}'
                 corr.violations.append({'what': f'atomic stress phase `{pname}` {why}', 'input': desc, 'expected': 'terminates with the linearizable value',
                                         'got': (o[-300:] + e[-200:]), 'program': text, 'phase': pname})
-                break
+                return
             final, errs, fails, evals = got[pname]
-            if fails > 0 or nt >= 2:
-                corr.nontrivial.add(key)
+            corr.nontrivial.add(key)
             if fails > 0:
                 corr.count('stress:observed-cas-failures', fails)
             if pred[0] == 'fold':
-                want = int(predicted[(ri, pname)]) if predicted[(ri, pname)] != 'trap' else None
+                want = int(predicted[pname]) if predicted[pname] != 'trap' else None
             elif pred[0] == 'bits':
                 want = pred[1]
             elif pred[0] == 'float':
@@ -736,11 +730,11 @@ def stress(ctx, corr, plan=None):
                 corr.violations.append({'what': f'atomic updates lost or wrong values returned in phase `{pname}`', 'input': desc,
                                         'expected': f'final object bits {want}, 0 inconsistent return values', 'got': f'final {final}, {errs} inconsistent return values',
                                         'program': text, 'phase': pname})
-                break
+                return
             if pname == 'fetchadd' and evals and evals != nt * iters:
                 corr.violations.append({'what': 'operand of atomic_fetch_add evaluated more than once per call', 'input': desc,
                                         'expected': nt * iters, 'got': evals, 'program': text, 'phase': pname})
-                break
+                return
     if runs:
         tag, storage, nt, phases, kind, rc, o, e, text = runs[0]
         corr.sample({'stress': f'_Atomic {TY[tag][1]} {storage} {nt} threads', 'output': o.splitlines()[:4]})
@@ -849,13 +843,16 @@ def corpus(ctx, corr):
         corr.count('corpus')
         corr.nontrivial.add('corpus:' + fn)
         got = [l.strip() for l in o.strip().splitlines()]
-        if kind != 'run' or rc != 0 or (want is not None and got != want):
+        bad = kind != 'run' or rc != 0 or (want is not None and got != want)
+        if bad:
             v = {'what': 'corpus witness fails: ' + fn, 'input': fn, 'expected': want if want is not None else 'rc 0',
                  'got': got if kind == 'run' and rc == 0 else f'{kind} rc={rc} {"(killed: did not terminate)" if rc in (137, -9) else e[-300:]}', 'program': text}
             if kid:
                 v['known_id'] = kid.group(1)
                 corr.known_hits.append(kid.group(1))
             corr.violations.append(v)
+            if not kid:
+                return
 
 # ------------------------------------------------------------------------------------------------ plugin entry points
 
@@ -872,11 +869,10 @@ def correspond(ctx, corr):
                  'compare-exchange: returned flags, written-back expected value and object vs the model run on the same schedule.  '
                  'non-trivial = distinct function/sequence pairs (tie), operand pairs without 0/1 (semantics), multi-thread phases (stress), '
                  'forced-failure cases (ping-pong).')
-    corpus(ctx, corr)
-    tie(ctx, corr)
-    opsem(ctx, corr)
-    pingpong(ctx, corr)
-    stress(ctx, corr)
+    for leg in (corpus, tie, opsem, pingpong, stress):
+        leg(ctx, corr)
+        if corr.violations:
+            return      # one concrete failing input is enough; the remaining legs would only repeat it (or hang on it)
 
 def search(ctx, broken, corr):
     """tie or proof broken and the standard run saw no violation: stress the types whose sequences changed (all widths if unknown)
